@@ -141,6 +141,7 @@ class Extractor:
         self.used_loops = set()
         self.used_hints = set()
         self.vacuity_probes = []
+        self.lost_hints = []
         self.optional_missing = set()  # quals of "optional" items absent from this tree
 
     # -- source access
@@ -301,7 +302,12 @@ class Extractor:
                 off += len(ln) + 1
             hits = [(o, ln) for (o, ln) in body_lines if anchor in rs.norm_ws(ln)]
             if len(hits) <= h["nth"]:
-                raise Undecided("lost anchor: hint in %s: `%s`" % (qual, h["anchor"]))
+                # a proof hint is ghost code: when its anchor statement was edited away the hint is dropped and the
+                # function is verified without it.  If everything still discharges the edit was harmless; failures in
+                # this function are then reported as UNDECIDED (refactoring and defect cannot be told apart).
+                self.lost_hints.append((qual, h["anchor"]))
+                self.used_hints.add(hi)
+                continue
             o, ln = hits[h["nth"]]
             self.used_hints.add(hi)
             self.transforms.add("T10")
